@@ -37,6 +37,12 @@ fn alphabet() -> Vec<String> {
         a.push(format!("sort_by([2, 1], {} => do {{\n  inner_{} = {}\n  return inner_{}\n}})", n, n, n, n));
     }
     // a function with a free name that is bound later, rebinding of functions under other names
+    a.push("fs = [q => q + helper, 1]".to_string());
+    a.push("fs[0](1)".to_string());
+    a.push("do {\n  helper = fs[0]\n  return 0\n}".to_string());
+    a.push("(g => do {\n  helper = g\n  return 0\n})(fs[0])".to_string());
+    a.push("rec_holder = {f: q => q + helper}".to_string());
+    a.push("do {\n  helper = rec_holder.f\n  x = rec_holder.f\n  return 0\n}".to_string());
     a.push("fh = q => q + helper".to_string());
     a.push("helper = 10".to_string());
     a.push("fh(1)".to_string());
